@@ -85,25 +85,59 @@ def solve(A, b):
 
 
 def lagrange_derivative_weights(nodes, x0, kmax):
-    """Row k (0..kmax) = weights w_j with sum_j w_j p(x_j) = p^(k)(x0) for every polynomial
-    p of degree < len(nodes).  Exact, from the definition: Taylor-moment system
-    sum_j w_j (x_j-x0)^d / d! = [d == k], d = 0..m-1."""
-    xs = [F(v) - F(x0) for v in nodes]
-    m = len(xs)
-    # matrix V[d][j] = xs[j]^d / d!
-    V = []
-    fact = Fraction(1)
-    pw = [Fraction(1)] * m
-    for d in range(m):
-        if d > 0:
-            fact *= d
-            pw = [p * x for p, x in zip(pw, xs)]
-        V.append([p / fact for p in pw])
-    rows = []
-    for k in range(kmax + 1):
-        rhs = [Fraction(1) if d == k else Fraction(0) for d in range(m)]
-        rows.append(solve(V, rhs))
+    """rows[k][j] (k = 0..kmax) = k-th derivative at x0 of the Lagrange basis polynomial
+    l_j of the nodes, i.e. sum_j rows[k][j] p(x_j) = p^(k)(x0) for every polynomial p of
+    degree < len(nodes).  Exact; straight from the definition
+        l_j(t) = prod_{i != j} (t - t_i) / prod_{i != j} (t_j - t_i),   t = x - x0,
+    using the truncated product P(t) = prod_i (t - t_i) and synthetic division by (t - t_j).
+    """
+    ts = [F(v) - F(x0) for v in nodes]
+    m = len(ts)
+    K = min(kmax, m - 1)
+    # P truncated to degree K+1
+    P = [Fraction(1)] + [Fraction(0)] * (K + 1)
+    for t in ts:
+        for d in range(K + 1, 0, -1):
+            P[d] = P[d - 1] - t * P[d]
+        P[0] = -t * P[0]
+    rows = [[Fraction(0)] * m for _ in range(kmax + 1)]
+    for j, tj in enumerate(ts):
+        den = Fraction(1)
+        for i, ti in enumerate(ts):
+            if i != j:
+                den *= (tj - ti)
+        if den == 0:
+            raise ZeroDivisionError('nodes are not distinct')
+        q = [Fraction(0)] * (K + 1)
+        if tj == 0:
+            for d in range(K + 1):
+                q[d] = P[d + 1]
+        else:
+            q[0] = -P[0] / tj
+            for d in range(1, K + 1):
+                q[d] = (q[d - 1] - P[d]) / tj
+        fact = Fraction(1)
+        for k in range(K + 1):
+            if k > 0:
+                fact *= k
+            rows[k][j] = fact * q[k] / den
     return rows
+
+
+def poly_eval(coefs, x):
+    """Horner, exact. coefs[d] multiplies x^d."""
+    x = F(x)
+    acc = Fraction(0)
+    for c in reversed(coefs):
+        acc = acc * x + F(c)
+    return acc
+
+
+def poly_deriv(coefs, n):
+    out = [F(c) for c in coefs]
+    for _ in range(n):
+        out = [d * c for d, c in enumerate(out)][1:]
+    return out or [Fraction(0)]
 
 
 def to_float(fr):
@@ -111,3 +145,93 @@ def to_float(fr):
         return float(fr)
     except OverflowError:
         return math.inf if fr > 0 else -math.inf
+
+
+class QI(object):
+    """Gaussian rationals Q(i): exact complex arithmetic on float complex inputs."""
+    __slots__ = ('re', 'im')
+
+    def __init__(self, re=0, im=0):
+        if isinstance(re, QI):
+            self.re, self.im = re.re, re.im
+        elif isinstance(re, complex):
+            self.re, self.im = Fraction(re.real), Fraction(re.imag)
+        else:
+            self.re, self.im = F(re), F(im)
+
+    @staticmethod
+    def of(v):
+        if isinstance(v, QI):
+            return v
+        if isinstance(v, complex):
+            return QI(v)
+        try:
+            import numpy as _np
+            if isinstance(v, _np.complexfloating):
+                return QI(complex(v))
+            if isinstance(v, _np.floating):
+                return QI(float(v))
+        except ImportError:
+            pass
+        return QI(F(v))
+
+    def __add__(self, o):
+        o = QI.of(o)
+        return QI(self.re + o.re, self.im + o.im)
+    __radd__ = __add__
+
+    def __sub__(self, o):
+        o = QI.of(o)
+        return QI(self.re - o.re, self.im - o.im)
+
+    def __rsub__(self, o):
+        return QI.of(o) - self
+
+    def __neg__(self):
+        return QI(-self.re, -self.im)
+
+    def __mul__(self, o):
+        o = QI.of(o)
+        return QI(self.re * o.re - self.im * o.im, self.re * o.im + self.im * o.re)
+    __rmul__ = __mul__
+
+    def inv(self):
+        d = self.re * self.re + self.im * self.im
+        return QI(self.re / d, -self.im / d)
+
+    def __truediv__(self, o):
+        return self * QI.of(o).inv()
+
+    def __rtruediv__(self, o):
+        return QI.of(o) * self.inv()
+
+    def __pow__(self, k):
+        k = int(k)
+        if k < 0:
+            return self.inv() ** (-k)
+        out, base = QI(1), self
+        while k:
+            if k & 1:
+                out = out * base
+            base = base * base
+            k >>= 1
+        return out
+
+    def __eq__(self, o):
+        o = QI.of(o)
+        return self.re == o.re and self.im == o.im
+
+    def is_zero(self):
+        return self.re == 0 and self.im == 0
+
+    def abs2(self):
+        return self.re * self.re + self.im * self.im
+
+    def abs_float(self):
+        return math.hypot(to_float(self.re), to_float(self.im))
+
+    def to_complex(self):
+        return complex(to_float(self.re), to_float(self.im))
+
+    def __repr__(self):
+        return 'QI(%r,%r)' % (to_float(self.re), to_float(self.im))
